@@ -7,8 +7,8 @@ use std::path::{Path, PathBuf};
 
 use arrrg::CommandLine;
 use lsmtk::verif::{StepMode, set_step_mode, steps_completed};
-use lsmtk::{KeyValueStore, LsmVerifier, LsmtkOptions, WriteBatch};
-use sst::Cursor;
+use lsmtk::{KeyValueStore, LsmTree, LsmVerifier, LsmtkOptions, WriteBatch};
+use sst::{Builder, Cursor};
 use vcore::{Value, json};
 
 use crate::refcursor::{Entry, Move, RefCursor};
@@ -172,6 +172,23 @@ pub fn config_grid() -> Vec<Cfg> {
 
 //////////////////////////////////////////////// Op ////////////////////////////////////////////////
 
+/// What an externally built SST contains: (key index, kind) in key order, kinds: 'p' put, 'd'
+/// tombstone, 'h' 5 KiB put, 'v' two versions of the key in the one file (tombstone below a put),
+/// 'w' two versions (put below a tombstone).  Timestamps grow with the step, so the file that is
+/// ingested last holds the last write of each of its keys.
+pub const INGEST_MENU: [(&str, &[(usize, char)]); 10] = [
+    ("a", &[(0, 'p')]),
+    ("ab", &[(1, 'p')]),
+    ("b", &[(2, 'p')]),
+    ("-a", &[(0, 'd')]),
+    ("-ab", &[(1, 'd')]),
+    ("a+b", &[(0, 'p'), (2, 'p')]),
+    ("-a+ab-b", &[(0, 'd'), (1, 'p'), (2, 'd')]),
+    ("AB", &[(1, 'h')]),
+    ("a2", &[(0, 'v')]),
+    ("a2-", &[(0, 'w')]),
+];
+
 #[derive(Clone, Debug, PartialEq, Eq, Hash)]
 pub enum Op {
     Put(usize),
@@ -182,6 +199,9 @@ pub enum Op {
     PutBig(usize),
     /// 5 KiB value: larger than the minimum target file size, so it gets an output file of its own
     PutHuge(usize),
+    /// External ingest of a freshly built SST into a bare `LsmTree` (subject "tree" only); the
+    /// index selects the file's contents from `INGEST_MENU`.
+    Ingest(usize),
     Flush,
     Compact,
     CompactAll,
@@ -201,6 +221,7 @@ impl Op {
             Op::Batch(i) => format!("batch:{i}"),
             Op::PutBig(k) => format!("putbig:{}", String::from_utf8_lossy(KEYS[*k])),
             Op::PutHuge(k) => format!("puthuge:{}", String::from_utf8_lossy(KEYS[*k])),
+            Op::Ingest(i) => format!("ing:{}", INGEST_MENU[*i].0),
             Op::Flush => "F".into(),
             Op::Compact => "C".into(),
             Op::CompactAll => "C*".into(),
@@ -231,6 +252,12 @@ impl Op {
                     "putbig" => Op::PutBig(key(b)),
                     "puthuge" => Op::PutHuge(key(b)),
                     "batch" => Op::Batch(b.parse().unwrap()),
+                    "ing" => Op::Ingest(
+                        INGEST_MENU
+                            .iter()
+                            .position(|m| m.0 == b)
+                            .unwrap_or_else(|| panic!("bad ingest file {b}")),
+                    ),
                     "scan" => Op::Scan(b.parse().unwrap()),
                     "walk" => {
                         let (i, m) = b.split_once(':').unwrap();
@@ -245,7 +272,7 @@ impl Op {
     pub fn is_client_write(&self) -> bool {
         matches!(
             self,
-            Op::Put(_) | Op::Del(_) | Op::Batch(_) | Op::PutBig(_) | Op::PutHuge(_)
+            Op::Put(_) | Op::Del(_) | Op::Batch(_) | Op::PutBig(_) | Op::PutHuge(_) | Op::Ingest(_)
         )
     }
 }
@@ -366,6 +393,8 @@ pub struct Store {
     pub cfg: Cfg,
     pub dir: PathBuf,
     kvs: Option<&'static KeyValueStore>,
+    /// subject "tree": a bare LsmTree fed by external ingests instead of a KeyValueStore
+    bare: Option<&'static LsmTree>,
     pub model: Model,
     pub cursors: Vec<KeptCursor>,
     pub step: usize,
@@ -391,13 +420,22 @@ fn big_value(step: usize, len: usize) -> Vec<u8> {
 impl Store {
     pub fn open(cfg: &Cfg, dir: &Path) -> Result<Store, String> {
         let opts = cfg.options(dir);
-        let kvs = vcore::catch(|| KeyValueStore::open(opts))
-            .map_err(|p| format!("panic in open: {p}"))?
-            .map_err(|e| format!("open failed: {e}"))?;
+        let (kvs, bare): (Option<&'static KeyValueStore>, Option<&'static LsmTree>) = if cfg.get("verif-subject") == Some("tree") {
+            let t = vcore::catch(|| LsmTree::open(opts))
+                .map_err(|p| format!("panic in open: {p}"))?
+                .map_err(|e| format!("open failed: {e}"))?;
+            (None, Some(Box::leak(Box::new(t))))
+        } else {
+            let kvs = vcore::catch(|| KeyValueStore::open(opts))
+                .map_err(|p| format!("panic in open: {p}"))?
+                .map_err(|e| format!("open failed: {e}"))?;
+            (Some(Box::leak(Box::new(kvs))), None)
+        };
         Ok(Store {
             cfg: cfg.clone(),
             dir: dir.to_path_buf(),
-            kvs: Some(Box::leak(Box::new(kvs))),
+            kvs,
+            bare,
             model: Model::new(),
             cursors: vec![],
             step: 0,
@@ -412,7 +450,28 @@ impl Store {
     }
 
     pub fn kvs(&self) -> &'static KeyValueStore {
-        self.kvs.expect("store is closed")
+        self.kvs.expect("store is closed (or the subject is a bare tree)")
+    }
+
+    pub fn is_bare_tree(&self) -> bool {
+        self.cfg.get("verif-subject") == Some("tree")
+    }
+
+    /// The LsmTree: the bare one, or the one inside the KeyValueStore.
+    pub fn tree(&self) -> &'static LsmTree {
+        match self.bare {
+            Some(t) => t,
+            None => self.kvs().verif_tree(),
+        }
+    }
+
+    /// (immutable memtable present, memtable bytes, imm_trigger, mem_seq_no, seq_no); a bare
+    /// tree has no memtable.
+    pub fn mem_state(&self) -> (bool, usize, u64, u64, u64) {
+        match self.kvs {
+            Some(k) => k.verif_mem_state(),
+            None => (false, 0, 0, 1, 0),
+        }
     }
 
     fn close(&mut self) {
@@ -424,6 +483,12 @@ impl Store {
                 drop(Box::from_raw(
                     k as *const KeyValueStore as *mut KeyValueStore,
                 ));
+            }
+        }
+        if let Some(t) = self.bare.take() {
+            // SAFETY: as above.
+            unsafe {
+                drop(Box::from_raw(t as *const LsmTree as *mut LsmTree));
             }
         }
     }
@@ -452,10 +517,10 @@ impl Store {
     }
 
     fn compact_step(&mut self) -> Result<bool, String> {
-        let kvs = self.kvs();
+        let tree = self.tree();
         set_step_mode(StepMode::StepNoWait);
         let before = steps_completed();
-        let r = vcore::catch(|| kvs.compaction_thread());
+        let r = vcore::catch(|| tree.compaction_thread());
         set_step_mode(StepMode::Off);
         match r {
             Err(p) => Err(format!("panic in compaction: {p}")),
@@ -465,26 +530,148 @@ impl Store {
     }
 
     pub fn would_stall(&self) -> bool {
-        self.kvs().verif_tree().verif_would_stall()
+        self.tree().verif_would_stall()
     }
 
     pub fn flush_pending(&self) -> bool {
-        let (_imm, _sz, imm_trigger, mem_seq_no, _seq) = self.kvs().verif_mem_state();
+        let (_imm, _sz, imm_trigger, mem_seq_no, _seq) = self.mem_state();
         imm_trigger >= mem_seq_no
     }
 
     pub fn apply(&mut self, op: &Op) -> StepResult {
         self.step += 1;
         let step = self.step;
-        let kvs = self.kvs();
+        if self.is_bare_tree() {
+            match op {
+                Op::Ingest(_) | Op::Compact | Op::CompactAll | Op::Reopen | Op::Verify | Op::Scan(_) | Op::Walk(..) => {}
+                _ => return StepResult::Disabled,
+            }
+        } else if matches!(op, Op::Ingest(_)) {
+            return StepResult::Disabled;
+        }
         match op {
+            // an ingest into a full level 0 parks until a compaction thread makes room: not
+            // enabled in a single-threaded history (C20 looks at these states)
+            Op::Ingest(_) if self.would_stall() => StepResult::Disabled,
+            Op::Ingest(i) => self.ingest(*i, step),
+            _ => self.apply_kvs(op, step),
+        }
+    }
+
+    /// Build an SST outside the store and hand it to `LsmTree::ingest`.
+    fn ingest(&mut self, which: usize, step: usize) -> StepResult {
+        let tree = self.tree();
+        let ext = self.dir.with_extension(format!("ext{step}.sst"));
+        let _ = std::fs::remove_file(&ext);
+        let ts = (step as u64) * 4;
+        let mut writes: Vec<(Vec<u8>, Option<Vec<u8>>)> = vec![];
+        let built = vcore::catch(|| -> Result<(), String> {
+            let mut b = sst::SstBuilder::new(sst::SstOptions::default(), &ext).map_err(|e| e.to_string())?;
+            for (k, kind) in INGEST_MENU[which].1.iter() {
+                let key = KEYS[*k];
+                let v = match kind {
+                    'h' => big_value(step, 5000),
+                    _ => self.value_for(step),
+                };
+                match kind {
+                    'p' | 'h' => {
+                        b.put(key, ts + 1, &v).map_err(|e| e.to_string())?;
+                        writes.push((key.to_vec(), Some(v)));
+                    }
+                    'd' => {
+                        b.del(key, ts + 1).map_err(|e| e.to_string())?;
+                        writes.push((key.to_vec(), None));
+                    }
+                    'v' => {
+                        b.put(key, ts + 2, &v).map_err(|e| e.to_string())?;
+                        b.del(key, ts + 1).map_err(|e| e.to_string())?;
+                        writes.push((key.to_vec(), Some(v)));
+                    }
+                    'w' => {
+                        b.del(key, ts + 2).map_err(|e| e.to_string())?;
+                        b.put(key, ts + 1, &v).map_err(|e| e.to_string())?;
+                        writes.push((key.to_vec(), None));
+                    }
+                    _ => unreachable!(),
+                }
+            }
+            b.seal().map_err(|e| e.to_string())?;
+            Ok(())
+        });
+        match built {
+            Err(p) => return StepResult::Err(format!("harness could not build the external sst (panic): {p}")),
+            Ok(Err(e)) => return StepResult::Err(format!("harness could not build the external sst: {e}")),
+            Ok(Ok(())) => {}
+        }
+        let r = vcore::catch(|| tree.ingest(&ext));
+        let _ = std::fs::remove_file(&ext);
+        match r {
+            Err(p) => StepResult::Err(format!("panic in ingest: {p}")),
+            Ok(Err(e)) => StepResult::Err(format!("ingest failed: {e}")),
+            Ok(Ok(())) => {
+                for (k, v) in writes {
+                    self.model.insert(k, v);
+                }
+                StepResult::Ok
+            }
+        }
+    }
+
+    fn apply_kvs(&mut self, op: &Op, step: usize) -> StepResult {
+        if !self.is_bare_tree() {
+            return self.apply_kvs_inner(op, step);
+        }
+        // bare tree: only the steps that do not touch a KeyValueStore reach this point
+        match op {
+            Op::Reopen => {
+                let opts = self.cfg.options(&self.dir);
+                self.close();
+                match vcore::catch(|| LsmTree::open(opts)) {
+                    Err(p) => StepResult::Err(format!("panic in reopen: {p}")),
+                    Ok(Err(e)) => StepResult::Err(format!("reopen failed: {e}")),
+                    Ok(Ok(t)) => {
+                        self.bare = Some(Box::leak(Box::new(t)));
+                        self.n_reopen += 1;
+                        StepResult::Ok
+                    }
+                }
+            }
+            Op::Scan(b) => {
+                let tree = self.tree();
+                let pairs = bound_pairs();
+                let (s, e) = &pairs[*b];
+                match vcore::catch(|| tree.range_scan(s, e)) {
+                    Err(p) => StepResult::Err(format!("panic in range_scan: {p}")),
+                    Ok(Err(e)) => StepResult::Err(format!("range_scan failed: {e}")),
+                    Ok(Ok(c)) => {
+                        let reference = RefCursor::new(model_entries(&self.model, &pairs[*b]));
+                        self.cursors.push(KeptCursor {
+                            cursor: Box::new(c),
+                            reference,
+                            bounds: *b,
+                            opened_at_step: step,
+                        });
+                        StepResult::Ok
+                    }
+                }
+            }
+            _ => self.apply_kvs_inner(op, step),
+        }
+    }
+
+    fn apply_kvs_inner(&mut self, op: &Op, step: usize) -> StepResult {
+        // a bare tree only sends Compact / CompactAll / Verify / Walk here; none of them uses kvs
+        let kvs_opt = self.kvs;
+        let kvs = || kvs_opt.expect("this step needs a KeyValueStore");
+        match op {
+            Op::Ingest(_) => StepResult::Disabled,
             Op::Put(k) | Op::PutBig(k) | Op::PutHuge(k) => {
                 let v = match op {
                     Op::PutBig(_) => big_value(step, 1536),
                     Op::PutHuge(_) => big_value(step, 5000),
                     _ => self.value_for(step),
                 };
-                match vcore::catch(|| kvs.put(KEYS[*k], &v)) {
+                match vcore::catch(|| kvs().put(KEYS[*k], &v)) {
                     Err(p) => StepResult::Err(format!("panic in put: {p}")),
                     Ok(Err(e)) => StepResult::Err(format!("put failed: {e}")),
                     Ok(Ok(())) => {
@@ -495,7 +682,7 @@ impl Store {
                     }
                 }
             }
-            Op::Del(k) => match vcore::catch(|| kvs.del(KEYS[*k])) {
+            Op::Del(k) => match vcore::catch(|| kvs().del(KEYS[*k])) {
                 Err(p) => StepResult::Err(format!("panic in del: {p}")),
                 Ok(Err(e)) => StepResult::Err(format!("del failed: {e}")),
                 Ok(Ok(())) => {
@@ -520,7 +707,7 @@ impl Store {
                     wb.del(d);
                     wb.put(p, &v);
                 }
-                match vcore::catch(|| kvs.write(wb)) {
+                match vcore::catch(|| kvs().write(wb)) {
                     Err(p) => StepResult::Err(format!("panic in write: {p}")),
                     Ok(Err(e)) => StepResult::Err(format!("write failed: {e}")),
                     Ok(Ok(())) => {
@@ -625,7 +812,7 @@ impl Store {
             Op::Scan(b) => {
                 let pairs = bound_pairs();
                 let (s, e) = &pairs[*b];
-                match vcore::catch(|| kvs.range_scan(s, e)) {
+                match vcore::catch(|| kvs().range_scan(s, e)) {
                     Err(p) => StepResult::Err(format!("panic in range_scan: {p}")),
                     Ok(Err(e)) => StepResult::Err(format!("range_scan failed: {e}")),
                     Ok(Ok(c)) => {
@@ -659,9 +846,15 @@ impl Store {
 
     /// Point read as (value, is_tombstone).
     pub fn load(&self, key: &[u8]) -> Result<(Option<Vec<u8>>, bool), String> {
-        let kvs = self.kvs();
         let mut tomb = false;
-        match vcore::catch(|| kvs.load(key, &mut tomb)) {
+        let r = match self.bare {
+            Some(t) => vcore::catch(|| t.load(key, &mut tomb)),
+            None => {
+                let kvs = self.kvs();
+                vcore::catch(|| kvs.load(key, &mut tomb))
+            }
+        };
+        match r {
             Err(p) => Err(format!("panic in load: {p}")),
             Ok(Err(e)) => Err(format!("load failed: {e}")),
             Ok(Ok(v)) => Ok((v, tomb)),
@@ -669,9 +862,16 @@ impl Store {
     }
 
     pub fn scan(&self, b: usize) -> Result<Box<dyn Cursor + 'static>, String> {
-        let kvs = self.kvs();
         let pairs = bound_pairs();
         let (s, e) = &pairs[b];
+        if let Some(t) = self.bare {
+            return match vcore::catch(|| t.range_scan(s, e)) {
+                Err(p) => Err(format!("panic in range_scan: {p}")),
+                Ok(Err(e)) => Err(format!("range_scan failed: {e}")),
+                Ok(Ok(c)) => Ok(Box::new(c)),
+            };
+        }
+        let kvs = self.kvs();
         match vcore::catch(|| kvs.range_scan(s, e)) {
             Err(p) => Err(format!("panic in range_scan: {p}")),
             Ok(Err(e)) => Err(format!("range_scan failed: {e}")),
@@ -682,8 +882,7 @@ impl Store {
     /// Abstract signature of the state: model, tree shape (per level: key ranges and entry
     /// counts by size class), memtable flags, cursor positions.  Timestamps do not appear.
     pub fn signature(&self) -> (u64, u64) {
-        let kvs = self.kvs();
-        let levels = kvs.verif_tree().verif_levels();
+        let levels = self.tree().verif_levels();
         let shape: Vec<(usize, Vec<(Vec<u8>, Vec<u8>, u64)>)> = levels
             .iter()
             .enumerate()
@@ -697,7 +896,7 @@ impl Store {
                 )
             })
             .collect();
-        let (imm, memsz, _, _, _) = kvs.verif_mem_state();
+        let (imm, memsz, _, _, _) = self.mem_state();
         let model: Vec<(&Vec<u8>, bool)> = self.model.iter().map(|(k, v)| (k, v.is_some())).collect();
         let cursors: Vec<(usize, isize)> = self
             .cursors
@@ -721,7 +920,7 @@ impl Store {
     /// deeper level's files, the memtable) the entries as (key, timestamp rank, tombstone?).
     /// Two states with the same read signature answer every read program identically.
     pub fn read_signature(&self) -> Result<u64, String> {
-        let levels = self.kvs().verif_tree().verif_levels();
+        let levels = self.tree().verif_levels();
         let mut comps: Vec<(usize, Vec<(Vec<u8>, u64, bool)>)> = vec![];
         let mut all_ts: BTreeSet<u64> = BTreeSet::new();
         for (li, l) in levels.iter().enumerate() {
@@ -740,13 +939,13 @@ impl Store {
             .into_iter()
             .map(|(l, es)| (l, es.into_iter().map(|(k, t, d)| (k, rank[&t], d)).collect()))
             .collect();
-        let (imm, _, _, _, _) = self.kvs().verif_mem_state();
+        let (imm, _, _, _, _) = self.mem_state();
         let model: Vec<(&Vec<u8>, bool)> = self.model.iter().map(|(k, v)| (k, v.is_some())).collect();
         Ok(vcore::stable_hash(&(&comps, &self.mem_entries, imm, &model)))
     }
 
     pub fn describe_tree(&self) -> String {
-        let levels = self.kvs().verif_tree().verif_levels();
+        let levels = self.tree().verif_levels();
         let mut s = String::new();
         for (i, l) in levels.iter().enumerate() {
             if l.is_empty() {
@@ -764,14 +963,14 @@ impl Store {
             }
             s += " ";
         }
-        let (imm, memsz, _, _, _) = self.kvs().verif_mem_state();
+        let (imm, memsz, _, _, _) = self.mem_state();
         s += &format!("mem={memsz}B imm={imm}");
         s
     }
 
     /// Every entry of every SST of the current version.
     pub fn dump_tree(&self) -> Result<Vec<Entry>, String> {
-        let levels = self.kvs().verif_tree().verif_levels();
+        let levels = self.tree().verif_levels();
         let mut out = vec![];
         for l in levels.iter() {
             for m in l.iter() {
@@ -785,7 +984,7 @@ impl Store {
     }
 
     pub fn level15_setsums(&self) -> BTreeSet<[u8; 32]> {
-        let levels = self.kvs().verif_tree().verif_levels();
+        let levels = self.tree().verif_levels();
         levels[lsmtk::NUM_LEVELS - 1]
             .iter()
             .map(|m| m.setsum)
